@@ -300,7 +300,11 @@ Theorem entry_points_are_of_current_source :
     ["JobIDExists: Has([]byte(jobID))"; "saveJob: Save([]byte(job.GetID()))"; "GetJob: Load([]byte(jobID))";
      "AddNewJob: JobIDExists(job.GetID())"; "ExecuteJob: GetJob(jobID)"; "ScheduleNow: GetJob(jobID)";
      "ExecuteJob: ScheduleNow(jobID)"; "Job.GetID: return m.ID | """""]%string /\
+  Gen.C17.job_id_rewrites = [] /\ Gen.C17.create_owner_unconditional = true /\
   Gen.C17.msgserver_creator = "sdk.AccAddressFromBech32(msg.GetMetadata().GetCreator())"%string /\
+  Gen.C17.msgserver_identity_assignments =
+    ["creator, err := sdk.AccAddressFromBech32(msg.GetMetadata().GetCreator())";
+     "senderAddress := msgSrv.Keeper.GetAccount(ctx, creator).GetAddress()"]%string /\
   Gen.C17.ante_checks_creator_authorisation = true /\
   Gen.C17.binding_reads_message_sender = false /\
   Gen.C17.binding_dispatch =
@@ -311,6 +315,7 @@ Theorem entry_points_are_of_current_source :
   Gen.C17.router_dispatch =
     ["h.scheduler.DispatchMsg(ctx, contractAddr, contractIBCPortID, *contractMsg.Scheduler)";
      "h.legacyFallback.DispatchMsg(ctx, contractAddr, contractIBCPortID, msg)"]%string /\
+  Gen.C17.prejob_calls = ["k.GetChainInfo(ctx, chainReferenceID)"; "k.justInTimeValsetUpdate(ctx, chain)"]%string /\
   Gen.C17.send_valset_shape = ["read queueName"; "for messages"; "put"]%string /\
   Gen.C17.send_valset_loop =
     ["mmsg.GetTurnstoneID() != string(chainInfo.GetSmartContractUniqueID()) => return nil";
@@ -318,7 +323,7 @@ Theorem entry_points_are_of_current_source :
      "action.UpdateValset.Valset.ValsetID == valset.ValsetID => return nil";
      "m.ConsensusKeeper.DeleteJob(ctx, queueName, msg.GetId())"]%string.
 Proof.
-  exact (conj eq_refl (conj eq_refl (conj eq_refl (conj eq_refl (conj eq_refl (conj eq_refl (conj eq_refl (conj eq_refl (conj eq_refl (conj eq_refl (conj eq_refl (conj eq_refl (conj eq_refl (conj eq_refl (conj eq_refl eq_refl))))))))))))))).
+  exact (conj eq_refl (conj eq_refl (conj eq_refl (conj eq_refl (conj eq_refl (conj eq_refl (conj eq_refl (conj eq_refl (conj eq_refl (conj eq_refl (conj eq_refl (conj eq_refl (conj eq_refl (conj eq_refl (conj eq_refl (conj eq_refl (conj eq_refl (conj eq_refl (conj eq_refl eq_refl))))))))))))))))))).
 Qed.
 Print Assumptions entry_points_are_of_current_source.
 
